@@ -175,6 +175,14 @@ impl<T: Bounded> BVH<T> {
                 completed.insert(parent_id, parent_node);
             }
         }
+        // Caso de árbol con un único nodo terminal (no hay más elementos que el máximo por nodo)
+        if let Some(TreeElement(_, Leaf, _, None, Some(elements))) = node_list.pop() {
+            if elements.is_empty() {
+                return Self::new(None);
+            }
+            let aabb = elements.aabb();
+            return Self::new(Some(BVHNode::Leaf { aabb, elements }));
+        }
         Self::new(completed.remove(&0_usize))
     }
 
